@@ -107,10 +107,14 @@ def step (w : World) : Call → World × Res
   | .disconnect =>
     if w.connected then
       let w1 := streamStop w
-      -- ch_disable_all(True): asserts a device, disables all, writes
-      let (w2, _) := if w1.hasDev then cfgCall w1 .disableAll true else (w1, .raised .assertion)
-      let w3 := commDisconnect w2
-      ({ w3 with connected := false }, .ok)
+      -- ch_disable_all(True): asserts a device, disables all, writes; an exception raised there
+      -- propagates: `_comm.disconnect()` is skipped, `_connected` stays True and the call raises
+      -- (the stream is stopped and the requested vectors are changed by then)
+      match (if w1.hasDev then cfgCall w1 .disableAll true else (w1, .raised .assertion)) with
+      | (w2, .raised e) => (w2, .raised e)
+      | (w2, .ok) =>
+        let w3 := commDisconnect w2
+        ({ w3 with connected := false }, .ok)
     else (w, .ok)
   | .streamStart =>
     if w.streamStarted then (w, .ok)
